@@ -225,6 +225,21 @@ Definition calc_widths_x (flexmin stale capmin : bool) (o : topts) (cols : list 
     Ok (zip_add widths pad)
   else Ok widths.
 
+(* ConsoleOptions.update on the three fields that travel to a cell: None keeps the inherited value,
+   anything else (False included) sets it.  keeps_none = gen/BoxChars.UPDATE_NONE_KEEPS: with a
+   truthiness test instead (`if no_wrap:`) a False cannot switch an inherited True off. *)
+Record copts := mkCopts { co_justify : Z; co_overflow : Z; co_nowrap : bool }.
+Definition co_update (keeps_none : bool) (inh : copts) (j ov : option Z) (nw : option bool) : copts :=
+  mkCopts (match j with Some x => x | None => co_justify inh end)
+          (match ov with Some x => x | None => co_overflow inh end)
+          (match nw with
+           | Some b => if keeps_none then b else (if b then true else co_nowrap inh)
+           | None => co_nowrap inh
+           end).
+(* what Table._render hands a cell of column (justify, overflow, no_wrap): always all three *)
+Definition cell_copts (keeps_none : bool) (inh : copts) (j ov : Z) (nw : bool) : copts :=
+  co_update keeps_none inh (Some j) (Some ov) (Some nw).
+
 (* the width __rich_console__ solves for: Table.width if set, else the available width *)
 Definition target_width (o : topts) (avail : Z) : Z :=
   match o_width o with Some w => w | None => avail end.
